@@ -516,7 +516,7 @@ fn check(prop: &str, tier: &str) -> i32 {
         "C13" => {
             vh::interp::COMPACT_GROWTH_ORACLE.store(true, std::sync::atomic::Ordering::Relaxed);
             let mut rep = Report::new(prop, tier, "model_checking");
-            rep.cov("rule", json!("(a) every sequence up to the depth bound of fragmenting transactions (big/small inserts, deletes, growth, shrink, non-durable commits), reader/savepoint lifetimes and compact() from multi-region fragmented seeds: compact() must refuse exactly when a reader / ephemeral / persistent savepoint exists, otherwise leave the dump unchanged, not grow the file, stay within a backend-call budget, and repeated calls must reach `false`; (b) crash enumeration (engine of C01) at every storage operation inside compaction"));
+            rep.cov("rule", json!("(a) every sequence up to the depth bound of fragmenting transactions (big/small inserts, deletes, growth, shrink, non-durable commits), reader/savepoint lifetimes and compact() from multi-region fragmented seeds: compact() must refuse exactly when a reader / ephemeral / persistent savepoint exists, otherwise leave the dump unchanged, not grow the file, stay within a backend-call budget, and repeated calls must reach `false`; (b) crash enumeration (engine of C01) at every storage operation inside compaction; (c) controlled scheduler (engine of C03), scenario S9: compact() on one thread while a write transaction that began earlier creates an ephemeral savepoint, writes and commits on another - compact() must refuse in every schedule with at most k preemptions"));
             rep.cov("exhaustive", json!(true));
             par::PHASE_LIMIT_PERCENT.store(55, std::sync::atomic::Ordering::Relaxed);
             seq_into(&mut rep, profiles::c13_profiles(quick));
@@ -533,6 +533,17 @@ fn check(prop: &str, tier: &str) -> i32 {
                     max_images_per_history: if quick { 10_000 } else { 100_000 },
                 },
             );
+            // (c) the refusal rule against a savepoint that appears while compact() waits for
+            // the write lock: all schedules with at most k preemptions (engine of C03)
+            if let Err(e) = schedrun_selftest("S9") {
+                rep.machinery_errors.push(format!("S9: determinism self-test: {e}"));
+            }
+            let mut plans = vec![vh::schedrun::Plan { scn: "S9", cache: 0, bound: 1, reduced: true, cap: 60_000 }];
+            if !quick {
+                plans.push(vh::schedrun::Plan { scn: "S9", cache: 1, bound: 1, reduced: true, cap: 60_000 });
+                plans.push(vh::schedrun::Plan { scn: "S9", cache: 0, bound: 2, reduced: true, cap: 400_000 });
+            }
+            vh::schedrun::run_plans(&mut rep, plans);
             rep.finish()
         }
         _ => {
